@@ -396,7 +396,7 @@ Qed.
 (* a grid cell none of whose pixels lies in the region gets a total-order index of exactly 0, before upsampling:
    any perturbation function, any forward batch size, any replicated design, any image and grid geometry *)
 Theorem sobol_zero_inert pf g H W C bs n A B x t R i :
-  (1 <= bs)%nat -> is_matrix n (g * g) A -> is_matrix n (g * g) B -> (i < g * g)%nat ->
+  bs_valid bs -> is_matrix n (g * g) A -> is_matrix n (g * g) B -> (i < g * g)%nat ->
   ignores_outside C R score -> inert_cell g H W R i = true ->
   nthq (nth 0 (sobol_explain score jansen pf g H W C bs n (replicated_design (g * g) A B) [x] [t]) []) i = 0.
 Proof.
@@ -409,7 +409,7 @@ Qed.
 (* hence (Jansen's estimator is a sum of squares over a variance) no inert cell beats any cell: the largest index
    of the low-resolution map is attained at a cell that touches the region as soon as one exists *)
 Theorem sobol_inert_minimal pf g H W C bs n A B x t R i j :
-  (1 <= bs)%nat -> (2 <= n)%nat -> is_matrix n (g * g) A -> is_matrix n (g * g) B ->
+  bs_valid bs -> (2 <= n)%nat -> is_matrix n (g * g) A -> is_matrix n (g * g) B ->
   (i < g * g)%nat -> (j < g * g)%nat -> ignores_outside C R score -> inert_cell g H W R i = true ->
   let low := nth 0 (sobol_explain score jansen pf g H W C bs n (replicated_design (g * g) A B) [x] [t]) [] in
   nthq low i <= nthq low j.
@@ -421,3 +421,33 @@ Proof.
   rewrite map_length. destruct HA as [-> _]. exact Hn.
 Qed.
 End Zero.
+
+(* ------------------------------------------------------------------ the exact-zero clause is Jansen's (and Janon's) only
+   SobolAttributionMethod(estimator=HommaEstimator() / SaltelliEstimator()): these two divide the 1/n moment
+   (1/n) sum(a * c_i) - mu^2 by the UNBIASED variance sum((a - mu)^2) / (n - 1); for an inert cell (c_i = a) the
+   result is 1/n, not 0.  Witness: 1x2 image, 2x2 grid (cells 0 and 1 are read by no pixel: inert whatever the region),
+   score = first feature, n = 2. *)
+Definition refut_score : list Qc -> list Qc -> Qc := fun x _ => nthq x 0.
+Definition refut_R : nat -> bool := fun p => Nat.eqb p 0.
+Definition refut_A : list (list Qc) := [[0; 0; 0; 0]; [0; 0; 1; 0]].
+Definition refut_B : list (list Qc) := [[1; 1; 1; 1]; [1; 1; 0; 1]].
+Definition refut_low (est : list Qc -> nat -> nat -> list Qc) : list Qc :=
+  nth 0 (sobol_explain refut_score est (fun _ => Baseline [0; 0]) 2 1 2 1 None 2
+                       (replicated_design 4 refut_A refut_B) [[1; 1]] [[]]) [].
+
+Lemma sobol_zero_inert_refuted_homma_saltelli :
+  bs_valid None /\ is_matrix 2 4 refut_A /\ is_matrix 2 4 refut_B /\
+  ignores_outside 1 refut_R refut_score /\ inert_cell 2 1 2 refut_R 0 = true /\
+  nthq (refut_low jansen) 0 = 0 /\ nthq (refut_low janon) 0 = 0 /\
+  nthq (refut_low homma) 0 = q 1 2 /\ nthq (refut_low saltelli) 0 = q 1 2 /\ q 1 2 <> 0.
+Proof.
+  split; [exact I|]. split; [split; [reflexivity | intros r [<-|[<-|[]]]; reflexivity]|].
+  split; [split; [reflexivity | intros r [<-|[<-|[]]]; reflexivity]|].
+  split; [intros x x' t [_ H]; apply (H 0%nat); reflexivity|].
+  split; [reflexivity|].
+  split; [apply Qceqb_eq; vm_compute; reflexivity|].
+  split; [apply Qceqb_eq; vm_compute; reflexivity|].
+  split; [apply Qceqb_eq; vm_compute; reflexivity|].
+  split; [apply Qceqb_eq; vm_compute; reflexivity|].
+  intro E. apply Qceqb_eq in E. vm_compute in E. discriminate E.
+Qed.
